@@ -100,6 +100,7 @@ def spec_from_seed(run_seed, tier):
         if abs(x) >= 10:
             m, e = ("%.15e" % x).split("e")
             forms.append(m.rstrip("0").rstrip(".") + "e" + str(int(e)))
+            forms.append(m.rstrip("0").rstrip(".") + "e+" + str(int(e)))
         if 0 < x < 1:
             forms.append(repr(x).lstrip("0"))
         s_ = rnd.choice(forms)
@@ -314,6 +315,16 @@ def _coherence(g, dist, fam, params, rd, discrete, L, viol, stats):
                     if abs(pi - sm) > 1e-9 + 1e-7 * abs(sm):
                         viol("interval_vs_point_probability", f"P(0 < M <= {b}) reported as {pi!r}, point probabilities sum to {sm!r}", ["interval_from_zero"] + off)
                         break
+        # ... and for interval ends that are not integers (cumulative block masses are not): P(a' < M <= b') is the sum of the
+        # point probabilities of the integers in that interval
+        if len(pts) == len(ks) and len(ks) > 8:
+            a_ = ks[len(ks) // 3] + 0.6
+            b_ = ks[(2 * len(ks)) // 3] + 0.7
+            pi = float(dist.prob_mw(_interval(g, a_, b_)))
+            sm = sum(p for k, p in zip(pts, ps) if a_ < k <= b_)
+            if abs(pi - sm) > 1e-9 + 1e-7 * abs(sm):
+                viol("interval_vs_point_probability", f"P({a_} < M <= {b_}) reported as {pi!r}, point probabilities of the integers inside sum to {sm!r}",
+                     ["fractional_interval_ends"] + off)
         # interval probability equals the sum of point probabilities
         if len(pts) == len(ks):
             a = ks[len(ks) // 4]
